@@ -132,6 +132,8 @@ type Worker struct {
 	depth   int
 
 	obs []string // Observe log of this path
+	callers []string // the last few functions entered (diagnostics only)
+	frozen map[string]Value // zzv.Freeze snapshots of this path
 	knownLog  []knownUndo
 	curInstr  ssa.Instruction
 	lastModel Model
@@ -1130,10 +1132,14 @@ func (w *Worker) call(f *FuncV, args []Value, site ssa.CallInstruction) Value {
 		if w.inInit {
 			return w.opaqueResult(fn)
 		}
-		w.fail("call to function without body: %s", name)
+		w.fail("call to function without body: %s (called from %s)", name, strings.Join(w.callers, " < "))
 	}
 	if w.inInit && !w.P.initCallOK(fn) {
 		return w.opaqueResult(fn)
+	}
+	w.callers = append(w.callers, fn.Name())
+	if len(w.callers) > 6 {
+		w.callers = w.callers[len(w.callers)-6:]
 	}
 	w.depth++
 	if w.depth > 200 {
